@@ -244,8 +244,12 @@ func (t *Tasks) UnmarshalYAML(node *yaml.Node) error {
 }
 
 func taskNameWithNamespace(taskName string, namespace string) string {
+	// A leading separator marks a reference to a task of the root Taskfile. The
+	// mark is kept while Taskfiles are merged into their parents, so that it
+	// means the same at every depth; it is removed once everything has been
+	// merged into the root (see TaskfileGraph.Merge)
 	if strings.HasPrefix(taskName, NamespaceSeparator) {
-		return strings.TrimPrefix(taskName, NamespaceSeparator)
+		return taskName
 	}
 	return fmt.Sprintf("%s%s%s", namespace, NamespaceSeparator, taskName)
 }
